@@ -28,8 +28,50 @@ fn ph_spec(s: &str) -> Vec<(Result<usize, String>, bool, &'static str)> {
         .collect()
 }
 
+// ---- watchdog: "in bounded time" (C18) -------------------------------------------------------------------------
+static TICK: std::sync::atomic::AtomicU64 = std::sync::atomic::AtomicU64::new(0);
+static CURRENT: std::sync::Mutex<String> = std::sync::Mutex::new(String::new());
+static QUIET: std::sync::atomic::AtomicBool = std::sync::atomic::AtomicBool::new(false);
+
+fn note_current(s: &str) {
+    if let Ok(mut c) = CURRENT.lock() {
+        c.clear();
+        // long stress literals: keep the head only
+        c.push_str(&s.chars().take(60).collect::<String>());
+    }
+    TICK.fetch_add(1, std::sync::atomic::Ordering::Relaxed);
+}
+
+/// if one literal keeps the parser busy for more than `secs` seconds the process reports it and exits with status 1
+fn start_watchdog(secs: u64) {
+    std::thread::spawn(move || {
+        let mut last = u64::MAX;
+        let mut same = 0u64;
+        loop {
+            std::thread::sleep(std::time::Duration::from_secs(1));
+            if QUIET.load(std::sync::atomic::Ordering::Relaxed) {
+                same = 0;
+                continue;
+            }
+            let t = TICK.load(std::sync::atomic::Ordering::Relaxed);
+            if t == last {
+                same += 1;
+            } else {
+                same = 0;
+                last = t;
+            }
+            if same >= secs {
+                let cur = CURRENT.lock().map(|c| c.clone()).unwrap_or_default();
+                println!("MISMATCH PANIC-like: the parser did not return within {secs} s while parsing {cur:?} (non-termination / unbounded time, C18)");
+                std::process::exit(1);
+            }
+        }
+    });
+}
+
 /// returns the list of contract violations for one literal (empty = holds)
 pub fn check_literal(s: &str) -> Vec<String> {
+    note_current(s);
     let mut out = Vec::new();
     let owned = s.to_owned();
     let r = std::panic::catch_unwind(move || {
@@ -174,6 +216,7 @@ pub fn stress(n: usize) -> Vec<String> {
     let mut out = Vec::new();
     for sh in shapes {
         let lit: String = sh.repeat(n);
+        note_current(&lit);
         let t0 = std::time::Instant::now();
         let l2 = lit.clone();
         let h = std::thread::Builder::new().stack_size(8 * 1024 * 1024).spawn(move || {
@@ -201,6 +244,7 @@ pub fn stress(n: usize) -> Vec<String> {
 pub fn oracle_main() -> i32 {
     let args: Vec<String> = std::env::args().collect();
     std::panic::set_hook(Box::new(|_| {}));
+    start_watchdog(if args.get(1).map(|s| s.as_str()) == Some("stress") { 25 } else { 6 });
     match args.get(1).map(|s| s.as_str()) {
         Some("lit") => {
             let mut bad = 0;
